@@ -410,6 +410,9 @@ def _registry():
     reg("O:red-green-prior", lambda: {"red": 0.66, "green": U(0.5, 0.55)})
     reg("O:red-green-np", lambda: {"red": np.float64(0.66),
                                    "green": np.float64(0.52)})
+    # keys as they come out of an image's channel axis (numpy strings)
+    reg("O:red-green-npkeys", lambda: {np.str_("red"): 0.66,
+                                       np.str_("green"): 0.52})
     reg("O:pol-dict", lambda: {"red": [1.0, 0.0], "green": [0.0, 1.0]})
     reg("O:pol-list", lambda: [1.0, 0.0])
     reg("O:pol-tuple", lambda: (1, 0), False)
@@ -640,7 +643,7 @@ _OPTICS = {
                      "O:red-green-np"],
     "illum_wavelen": [OMIT, "None", "0.75", "f32", "P:U-named",
                       "O:red-green", "O:red-green-prior", "O:xr",
-                      "O:xr-prior"],
+                      "O:xr-prior", "O:red-green-npkeys"],
     "illum_polarization": [OMIT, "None", "O:pol-list", "O:pol-tuple",
                            "O:pol-arr", "O:pol-dict"],
     "theory": [OMIT, "str:auto", "T:Mie", "T:Mie-opts", "T:Mie-class",
